@@ -1,8 +1,95 @@
 //! Extra implementation-side modes for property C07 (the shared `parse` mode lives in parse.rs).
+//!
+//! `(c07typed (cmd ...) (argv ...))`: parse with the real crate and print, for every argument of the
+//! root command, what the *typed* getters named by the property return:
+//!   `ok (t (<id> count <get_count>) (<id> flag <get_flag>) (<id> vals <src> (one ..) (many ..) (occ (..) ..)) ...)`
+//!   `err <Kind> ...` / `INVALID` exactly as the `parse` mode.
+use crate::hex;
+use crate::modes::parse::{build_cmd, show_result, EnvGuard};
 use crate::sexp::Sx;
+use clap::ArgAction;
+use std::ffi::OsString;
+use std::os::unix::ffi::OsStringExt;
+use std::panic::{catch_unwind, AssertUnwindSafe};
+
+fn typed(a: &[Sx]) -> String {
+    let mut env = EnvGuard(vec![]);
+    let cmd = match catch_unwind(AssertUnwindSafe(|| {
+        let c = build_cmd(a[0].args(), &mut env);
+        let mut probe = c.clone();
+        probe.build();
+        c
+    })) {
+        Ok(c) => c,
+        Err(_) => return "INVALID".into(),
+    };
+    let argv: Vec<OsString> = a[1].args().iter().map(|x| OsString::from_vec(x.bytes())).collect();
+    let mut built = cmd.clone();
+    built.build();
+    let specs: Vec<(String, ArgAction)> =
+        built.get_arguments().map(|a| (a.get_id().as_str().to_owned(), a.get_action().clone())).collect();
+    match cmd.try_get_matches_from(argv) {
+        Err(e) => show_result(Err(e)),
+        Ok(m) => {
+            let mut out = String::from("ok (t");
+            for (id, act) in &specs {
+                let idh = hex(id.as_bytes());
+                let src = match m.value_source(id) {
+                    Some(clap::parser::ValueSource::DefaultValue) => "default",
+                    Some(clap::parser::ValueSource::EnvVariable) => "env",
+                    Some(clap::parser::ValueSource::CommandLine) => "cmdline",
+                    None => "none",
+                    _ => "other",
+                };
+                match act {
+                    ArgAction::Count => {
+                        let v = catch_unwind(AssertUnwindSafe(|| m.get_count(id)));
+                        match v {
+                            Ok(n) => out.push_str(&format!(" ({idh} count {src} {n})")),
+                            Err(_) => out.push_str(&format!(" ({idh} count {src} panic)")),
+                        }
+                    }
+                    ArgAction::SetTrue | ArgAction::SetFalse => {
+                        let v = catch_unwind(AssertUnwindSafe(|| m.get_flag(id)));
+                        match v {
+                            Ok(b) => out.push_str(&format!(" ({idh} flag {src} {b})")),
+                            Err(_) => out.push_str(&format!(" ({idh} flag {src} panic)")),
+                        }
+                    }
+                    ArgAction::Set | ArgAction::Append => {
+                        let one = match m.try_get_one::<String>(id) {
+                            Ok(Some(s)) => hex(s.as_bytes()),
+                            Ok(None) => "none".into(),
+                            Err(_) => "?".into(),
+                        };
+                        let many = match m.try_get_many::<String>(id) {
+                            Ok(Some(v)) => v.map(|s| hex(s.as_bytes())).collect::<Vec<_>>().join(" "),
+                            Ok(None) => "none".into(),
+                            Err(_) => "?".into(),
+                        };
+                        let occ = match m.try_get_occurrences::<String>(id) {
+                            Ok(Some(o)) => o
+                                .map(|g| format!("({})", g.map(|s| hex(s.as_bytes())).collect::<Vec<_>>().join(" ")))
+                                .collect::<Vec<_>>()
+                                .join(" "),
+                            Ok(None) => "none".into(),
+                            Err(_) => "?".into(),
+                        };
+                        out.push_str(&format!(" ({idh} vals {src} (one {one}) (many {many}) (occ {occ}))"));
+                    }
+                    _ => {}
+                }
+            }
+            out.push(')');
+            out
+        }
+    }
+}
 
 /// Returns `Some(result)` when `head` is a mode of this file.
 pub fn dispatch(head: &str, args: &[Sx]) -> Option<String> {
-    let _ = (head, args);
-    None
+    match head {
+        "c07typed" => Some(typed(args)),
+        _ => None,
+    }
 }
